@@ -69,18 +69,6 @@ impl IndexMap<DFAId, usize> {
 }
 
 impl DFA {
-    /// ASSUMED (not verified): get_all_literals numbers the literal symbols of the pool, longest
-    /// first, from the shell's index base; what the table builders need of it is that every literal
-    /// transition's (text, description-or-empty) pair is listed. (Not: each pair once -- a literal used
-    /// with an explicit empty description and without one is listed twice; an earlier version of this
-    /// stand-in assumed distinctness, which no proof used and which is false: `cmd a "" b | c a;`.) (Its order and ids
-    /// are compared with an independent computation by the bounded stand-in of C04.)
-    #[verifier::external_body]
-    fn get_all_literals(&self, array_start: usize) -> (r: Vec<(LiteralId, Ustr, Ustr)>)
-        ensures
-            forall|q: u32, id: InpId, t: (Ustr, Ustr, u32)| #[trigger] lit_entry(*self, q, id, t) ==> listed(r@, t.0, t.1),
-    { unimplemented!() }
-
     /// the any-word transitions (a filter_map over iter_transitions): the vector of what it yields
     #[verifier::external_body]
     fn iter_top_level_star_transitions(&self) -> (r: Vec<(StateId, StateId)>)
